@@ -30,6 +30,11 @@ pub fn judge(docs: &[&DocEntry], el: &Element<String>, rank: u64) -> Vec<Violati
             match render_read(el, preset, sorted) {
                 Err(e) => out.push(mk("unreadable".into(), e)),
                 Ok(r) => {
+                    // a field type must identify exactly one definition
+                    if let Some(dup) = r.structs.iter().enumerate().find(|(i, s)| r.structs.iter().skip(i + 1).any(|t| t.name == s.name)) {
+                        out.push(mk("struct-name-ambiguous".into(), format!("[{} preset] struct `{}` is defined more than once: the struct of a position is not determined", pname, dup.1.name)));
+                        continue;
+                    }
                     for (di, d) in docs.iter().enumerate() {
                         if let Some(root) = d.root() {
                             if let Err((class, msg)) =
@@ -205,6 +210,32 @@ fn names_part(ctx: &Ctx) {
         TreeParams { min_nodes: 1, max_nodes: 3, max_decorated: 1, root_from_subset: false, shard: (0, 1) },
         TreeParams { min_nodes: 1, max_nodes: 3, max_decorated: 1, root_from_subset: false, shard: (0, 1) },
     );
+    // names that are separator-joined combinations of other names (a.b / c next to a / b.c)
+    for set in super::c04::separator_sets() {
+        let sp = TreeParams { min_nodes: 3, max_nodes: 4, max_decorated: 0, root_from_subset: false, shard: (0, 1) };
+        let sub4 = subsets(set.len(), 4);
+        let res = par_for(
+            sub4.len() as u64,
+            ctx.threads,
+            1,
+            Some(ctx.deadline),
+            |_| 0u64,
+            |acc, si| {
+                let subset: Vec<PoolName> = sub4[si as usize].iter().map(|&i| set[i]).collect();
+                for_each_tree(&subset, &sp, &mut |root| {
+                    if !prefix_clash_free(root) {
+                        return;
+                    }
+                    let d = DocEntry::from_root(root.clone());
+                    if let Ok(el) = run_history(&[&d]) {
+                        ctx.report_all(judge(&[&d], &el, (1 << 51) | si));
+                        *acc += 1;
+                    }
+                });
+            },
+        );
+        ctx.add("evaluations", res.accs.iter().sum::<u64>());
+    }
     let subs = subsets(pool.len(), k);
     let res = par_for(
         subs.len() as u64,
